@@ -3,11 +3,13 @@
 
   ops (numbers decimal; records `<cls>/<args>/<state>`; states in the prefix grammar below):
     reset <kind>                      kind ∈ file | mapping | demo:<changes>:<base>      → ok
+    newstorage <kind>                 → ok     (fresh storage, process-wide caches kept)
     class <cid> <imp> <res> <beh>     beh ∈ v<seed> | e | c | k                           → ok
     base <tid> <oid> <rec>            commit one record directly into the DemoStorage base → ok
     begin <t> <tid>                   → ok | blocked | err:StorageTransaction
     store <t> <oid> <serial> <rec>    → ok | resolved [calls] | err:Conflict [calls] | err:StorageTransaction
     check <t> <oid> <serial>          → ok | err:ReadConflict | err:KeyError | err:StorageTransaction
+    restore <t> <oid> <rec>           → ok | err:StorageTransaction       (unchecked store, FileStorage)
     delete <t> <oid> <serial>         → ok | err:Conflict | err:KeyError | err:Unsupported | err:StorageTransaction
     vote <t>                          → voted [oid,…] | err:StorageTransaction
     finish <t>                        → ok <tid> | err:StorageTransaction
@@ -244,6 +246,12 @@ def srStep (d : DState) (toks : List String) : DState × String :=
     match parseKind k with
     | some k => ({ sys := init k [], classes := [] }, "ok")
     | none => (d, "bad-op")
+  | ["newstorage", k] =>
+    -- another storage in the SAME process: committed state starts empty, the process-wide caches
+    -- (`_unresolvable`) and the class table stay
+    match parseKind k with
+    | some k => ({ d with sys := { init k [] with cache := d.sys.cache } }, "ok")
+    | none => (d, "bad-op")
   | ["class", c, imp, res, beh] =>
     match c.toNat?, parseBeh beh with
     | some c, some b =>
@@ -272,6 +280,17 @@ def srStep (d : DState) (toks : List String) : DState × String :=
   | ["delete", t, oid, serial] =>
     match t.toNat?, oid.toNat?, serial.toNat? with
     | some t, some oid, some serial => doStep d (.delete t oid serial)
+    | _, _, _ => (d, "bad-op")
+  | ["restore", t, oid, rec] =>
+    -- `restore(oid, tid of this transaction, data, '', None, txn)`: like store but WITHOUT any
+    -- consistency check (copyTransactionsFrom, recovery tools); a competing writer for later stores
+    match t.toNat?, oid.toNat?, parseRec rec with
+    | some t, some oid, some rec =>
+      if d.sys.lock = some t then
+        let ct := (currentTid d.sys.view oid).getD 0
+        ({ d with sys := { d.sys with staged := { oid := oid, base := ct, data := rec, wanted := rec,
+                                                  resolved := false } :: d.sys.staged } }, "ok")
+      else (d, "err:StorageTransaction")
     | _, _, _ => (d, "bad-op")
   | ["vote", t] =>
     match t.toNat? with
